@@ -45,6 +45,9 @@ method("_next_id", "(%s) -> int" % SELF, props=["C06", "C04"],
 method("_make_request_to_broker",
        "(%s, broker: Ref_BrokerClientAPI, correlationId: int, request: bytes, expectResponse: bool = True, min_timeout: Optional[float] = None) -> Ref_Deferred" % SELF,
        raises={"DuplicateRequestError": "True"},
+       # C11: whatever kind of request (also one that expects no response, which may sit queued behind a connection that
+       # never comes up): exactly one request handed to the broker client and exactly one timer armed for it
+       ensures={"every-request-gets-a-timer[C11]": "n_events('Timer') == 1 and n_events('MakeRequest') == 1"},
        checkpoints={"call:addBoth#1": {
            # C11: exactly one timer per request, armed with the client timeout (or the stated longer minimum)
            "one-timer-with-client-timeout[C11]": "n_events('Timer') == 1 and event_arg('Timer', 0, 0) == "
